@@ -29,6 +29,10 @@ EXTENDS Naturals, Sequences, FiniteSets, TLC, Json
 \* BEGIN-CONSTANTS
 CONSTANTS
     Segs,       \* child names, e.g. {"a", "b"}
+    SegTable,   \* [Segs -> Seq(char)]: the characters of each child name
+                \* (names are DATA: "module", "submodule", "0" are what
+                \* wrappers such as DistributedDataParallel / Sequential
+                \* produce, and a name may contain another name)
     Kinds,      \* kinds a leaf may have
     Frozen,     \* frozen values a leaf may have
     MaxLeaves,
@@ -64,12 +68,7 @@ Supported(kind) == IF Variant = "gpt" THEN kind \in {"colpar", "rowpar"}
 
 \* characters of a child name (multi-character names make one sibling's name
 \* a string prefix of another's: "a" / "ab")
-SegChars(s) ==
-    CASE s = "ab" -> <<"a", "b">>
-      [] s = "aa" -> <<"a", "a">>
-      [] s = "ba" -> <<"b", "a">>
-      [] s = "a_b" -> <<"a", "_", "b">>
-      [] OTHER -> <<s>>
+SegChars(s) == SegTable[s]
 \* qualified name as a sequence of characters
 RECURSIVE QName(_)
 QName(path) ==
